@@ -731,8 +731,8 @@ def g_oracle(meta, ob):
                     "Gaussian.%s|nearly-symmetric" % form)
         return None, ""
     if ob["outcome"] != "value":
-        if gk in ("spfull", "spdiabands"):
-            return None, ""                      # refusing a sparse full matrix without cholmod is not a wrong number
+        if gk in ("spfull", "spdiabands") or meta.get("nonsym_within_rtol"):
+            return None, ""                      # refusing a sparse full matrix without cholmod / a not exactly symmetric matrix is not a wrong number
         return ("Gaussian(%s=<%s>, dim %d).%s is refused (%s: %s) although the documented density is defined" % (
                 form, gk, meta["dim"], meta["method"], ob["outcome"], ob.get("err")), "Gaussian.%s|%s:refused" % (form, gk))
     doc = g_documented(meta)
@@ -944,6 +944,8 @@ def gaussian_magnitude_cases(ctx, cuqi, state, cases, stats):
                 for i in range(n):
                     for q in range(i):
                         A[i][q] = A[q][i] = float(rng.randint(-2, 2)) / 2
+                if kindof == "within-rtol" and A[n - 1][0] == 0.0:
+                    A[n - 1][0] = 1.0            # the relative tolerance needs a non-zero entry to be relative to
                 A[0][n - 1] = A[n - 1][0] + (1.0 if kindof == "gross" else 2.0 ** -20)
                 c = 2.0 ** ((k // 2) if form == "cov" else -(k // 2))
                 meta = {"kind": "gaussian", "form": form, "gkind": "densefull", "dim": n, "mean": [v * c for v in pt(n)], "via": "direct", "method": "logpdf",
